@@ -4,6 +4,8 @@
 package server
 
 import (
+	"errors"
+	"net"
 	"net/http"
 
 	"github.com/apernet/quic-go"
@@ -26,20 +28,27 @@ func ZZ_C02_OnlyMasquerade() {
 	path := verifString("path", 4+verifChoice("pathLen", 3))
 	accept := verifBool("authenticatorAccepts")
 	custom := verifBool("customHandler")
+	already := verifBool("alreadyAuthenticated")
 	auth := &zzAuth{verdicts: []bool{accept}}
+	if already {
+		auth.verdicts = []bool{true, accept}
+	}
 	ev := &zzEvents{}
 	masq := &zzMasq{}
-	cfg := &Config{Authenticator: auth, EventLogger: ev, DisableUDP: true}
+	cfg := &Config{Authenticator: auth, EventLogger: ev, DisableUDP: true, Outbound: zzNoOutbound{}}
 	if custom {
 		cfg.MasqHandler = masq
 	}
 	zzNotFound = zzMasq{}
 	conn := &quic.Conn{}
 	h := newH3sHandler(cfg, conn)
-	already := verifBool("alreadyAuthenticated")
 	if already {
-		h.authenticated = true
-		h.authID = "user1"
+		// an earlier, accepted authentication on this connection
+		w0 := &zzRW{}
+		h.ServeHTTP(w0, zzAuthRequest("POST", "hysteria", "/auth", "cred", "100", true))
+		verifAssert(w0.status == 233 && len(auth.calls) == 1, "the earlier authentication is accepted")
+		auth.calls = nil
+		ev.connects = nil
 	}
 	w := &zzRW{}
 	r := zzAuthRequest(method, host, path, "cred", "100", true)
@@ -51,7 +60,7 @@ func ZZ_C02_OnlyMasquerade() {
 		verifAssert(masq.calls == 0 && zzNotFound.calls == 0, "and is not shown to the masquerade handler")
 		if already {
 			verifAssert(len(auth.calls) == 0, "a repeated attempt on an authenticated connection is not re-evaluated")
-			verifAssert(h.authenticated, "nor does it revoke access")
+			verifAssert(zzProxies(h), "nor does it revoke access")
 		}
 		return
 	}
@@ -66,13 +75,87 @@ func ZZ_C02_OnlyMasquerade() {
 	}
 	verifAssert(seen.calls == 1, "the masquerade handler answers, exactly once")
 	verifAssert(seen.w == http.ResponseWriter(w) && seen.r == r, "with the very same writer and request")
-	verifAssert(h.authenticated == already, "authentication state unchanged")
+	verifAssert(zzProxies(h) == already, "authentication state unchanged: proxy streams are taken exactly as before")
 	if isAuth {
 		verifAssert(len(auth.calls) == 1, "credentials were evaluated once")
 	} else {
 		verifAssert(len(auth.calls) == 0, "a non-auth request never reaches the authenticator")
 	}
 	verifAssert(len(ev.connects) == 0, "no connect event")
+}
+
+type zzNoOutbound struct{}
+
+func (zzNoOutbound) TCP(reqAddr string) (net.Conn, error) { return nil, errors.New("refused") }
+func (zzNoOutbound) UDP(reqAddr string) (UDPConn, error)  { return nil, errors.New("refused") }
+func (zzNoOutbound) CheckUDP(reqAddr string) error         { return nil }
+
+// whether the connection currently accepts proxy streams (observed, not read from its fields)
+func zzProxies(h *h3sHandler) bool {
+	st := &quic.Stream{}
+	zzStream(st).in = []byte{0x44, 0x01, 0x03, 'a', ':', '1', 0x00}
+	hijacked, _ := h.ProxyStreamHijacker(http3.FrameType(0x401), st, nil)
+	return hijacked
+}
+
+// an authenticator that blocks until released, then accepts only "good"
+type zzSlowAuth2 struct {
+	gate     chan struct{}
+	inflight int
+	accepted bool
+}
+
+func (a *zzSlowAuth2) Authenticate(addr net.Addr, auth string, tx uint64) (bool, string) {
+	a.inflight++
+	<-a.gate
+	a.inflight--
+	if auth == "good" {
+		a.accepted = true
+	}
+	return auth == "good", "user1"
+}
+
+// While one authentication attempt is still being evaluated, a second request
+// or a proxy stream from the same (so far unauthenticated) peer sees nothing
+// Hysteria-specific: no 233, no Hysteria-* header, no reply on the stream.
+// Afterwards a peer whose credentials were all rejected has seen only the
+// masquerade handler.
+//
+//verif:harness kind=api replay=interp unwind=200 preempt=1 bound=2-requests,1-stream,one-preemption
+func ZZ_C02_RejectedAuthInFlight() {
+	auth := &zzSlowAuth2{gate: make(chan struct{})}
+	masq := &zzMasq{}
+	cfg := &Config{Authenticator: auth, DisableUDP: true, MasqHandler: masq, Outbound: zzNoOutbound{}}
+	h := newH3sHandler(cfg, &quic.Conn{})
+	creds := []string{"good", "bad"}
+	c1 := creds[verifChoice("firstCredential", 2)]
+	w1 := &zzRW{}
+	go h.ServeHTTP(w1, zzAuthRequest("POST", "hysteria", "/auth", c1, "100", true))
+	verifQuiesce()
+	verifAssert(auth.inflight == 1, "the first request is being evaluated")
+	c2 := creds[verifChoice("secondCredential", 2)]
+	w2 := &zzRW{}
+	go h.ServeHTTP(w2, zzAuthRequest("POST", "hysteria", "/auth", c2, "100", true))
+	verifQuiesce()
+	verifAssert(w2.untouched(), "while authentication is pending a second request gets no Hysteria-specific answer")
+	st := &quic.Stream{}
+	zzStream(st).in = []byte{0x44, 0x01, 0x03, 'a', ':', '1', 0x00}
+	hijacked, _ := h.ProxyStreamHijacker(http3.FrameType(0x401), st, nil)
+	verifQuiesce()
+	verifAssert(!hijacked && zzStream(st).ops == 0, "and a proxy stream draws no reply")
+	close(auth.gate)
+	verifQuiesce()
+	good := c1 == "good" || c2 == "good"
+	verifAssert(auth.accepted == good, "the authenticator accepted exactly the good credentials")
+	if !good {
+		verifCover("all-rejected")
+		verifAssert(w1.untouched() && w2.untouched(), "a peer whose credentials were all rejected was answered by the masquerade handler alone")
+		verifAssert(masq.calls == 2, "once per request")
+	} else {
+		verifCover("accepted")
+		verifAssert((w1.status == 233) == (c1 == "good"), "the first request is answered 233 exactly when its own credentials are good")
+		verifAssert(w2.status == 233, "the second request then finds the connection authenticated or authenticates it")
+	}
 }
 
 // A proxy stream on an unauthenticated connection draws no reply: the
